@@ -532,8 +532,29 @@ func (n *c12Node) probe() string {
 	return ""
 }
 
-func c12Judge(o c12Obs, ln int) (sig, what string) {
+// c12Frames parses the length prefixes only: number of complete frames and
+// whether anything (a partial frame, an over-long or over-size prefix) follows.
+func c12Frames(b []byte) (complete int, trailing bool, barePrefix bool) {
+	for len(b) > 0 {
+		n, k := binary.Uvarint(b)
+		if k <= 0 || n > 4<<20 || uint64(len(b)-k) < n {
+			// a well-formed length prefix announcing a non-empty body, followed by nothing at all
+			return complete, true, k > 0 && k == len(b) && n > 0 && n <= 4<<20
+		}
+		complete++
+		b = b[k+int(n):]
+	}
+	return complete, false, false
+}
+
+func c12Judge(o c12Obs, data []byte) (sig, what string) {
+	complete, trailing, barePrefix := c12Frames(data)
 	switch {
+	case o.Errors == 0 && o.Delivered == complete && barePrefix:
+		// msgio reports a stream that ends right after a length prefix as a plain EOF
+		return "malformed-message-dropped-silently/stream-ends-right-after-a-length-prefix", fmt.Sprintf("the stream ends after a length prefix announcing a body that never comes (%d complete frame(s) before it were delivered); no receive error, no reset", complete)
+	case o.Errors == 0 && (o.Delivered < complete || trailing):
+		return "malformed-message-dropped-silently", fmt.Sprintf("the stream holds %d complete frame(s) (trailing partial data: %v); %d message(s) were delivered and no receive error was reported", complete, trailing, o.Delivered)
 	case o.BadBlock != "":
 		return "unverified-block-delivered", o.BadBlock
 	case o.BadID != "":
@@ -572,7 +593,7 @@ func c12RunChunk(ms []c12Mutant, report func(i int, o c12Obs, sig, what string))
 				n.issue()
 			}
 			o := n.feed(peer.ID("P"), m.Bytes)
-			sig, what := c12Judge(o, len(m.Bytes))
+			sig, what := c12Judge(o, m.Bytes)
 			sinceProbe++
 			if sig == "" && (o.Delivered > 0 || sinceProbe >= 32 || i == len(ms)-1) {
 				sinceProbe = 0
